@@ -183,6 +183,51 @@ def loadElf (fx : Fix) (c : Cfg) (img : ElfImage) : Option Task :=
     some ⟨writesZone (elfWrites fx c img), img.entry % 2 ^ (8 * c.ptr)⟩
   else none
 
+/-! ## what a kernel accepts -/
+
+/-- one `PT_LOAD`: file offset and address agree modulo the page (`p_offset & (ps-1) = p_vaddr & (ps-1)`,
+    for a power of two `p_offset ≡ p_vaddr (mod ps)`), `filesz ≤ memsz`, not empty, file part inside
+    the file. -/
+def SegOK (file : Bytes) (ps : Nat) (s : Phdr) : Prop :=
+  pageOffset ps s.offset = pageOffset ps s.vaddr ∧ s.filesz ≤ s.memsz ∧ 0 < s.memsz ∧
+  s.offset + s.filesz ≤ file.length
+
+/-- an earlier segment `s` and a later one `t`: ordered and disjoint in memory, and the page-rounded
+    mapping of `t` either starts behind `s`, or shows the same file bytes as `s` does (same
+    address-to-offset delta) and `s` has no zero-filled part on that page. -/
+def NoClobber (ps : Nat) (s t : Phdr) : Prop :=
+  s.vaddr + s.memsz ≤ t.vaddr ∧
+  (s.vaddr + s.memsz ≤ pageStart ps t.vaddr ∨
+   (t.offset + s.vaddr = s.offset + t.vaddr ∧ s.memsz = s.filesz))
+
+/-- the stack pages lie apart from every segment (or no stack is mapped). -/
+def StackApart (c : Cfg) (ls : List Phdr) : Prop :=
+  c.aslr = true ∨ c.bare = true ∨
+  (stackSize c ≤ stackBase c ∧ ∀ s ∈ ls, s.vaddr + s.memsz ≤ stackLo c ∨ stackBase c ≤ s.vaddr)
+
+/-- an image a kernel would map as the file says. -/
+def LoadableOK (c : Cfg) (img : ElfImage) : Prop :=
+  0 < c.ps ∧ 0 < c.ptr ∧ img.entry < 2 ^ (8 * c.ptr) ∧
+  (∀ s ∈ loads img.phdrs, SegOK img.file c.ps s) ∧
+  (loads img.phdrs).Pairwise (NoClobber c.ps) ∧
+  StackApart c (loads img.phdrs)
+
+instance (file : Bytes) (ps : Nat) (s : Phdr) : Decidable (SegOK file ps s) := by
+  unfold SegOK; infer_instance
+instance (ps : Nat) (s t : Phdr) : Decidable (NoClobber ps s t) := by
+  unfold NoClobber; infer_instance
+instance (c : Cfg) (ls : List Phdr) : Decidable (StackApart c ls) := by
+  unfold StackApart; infer_instance
+instance (c : Cfg) (img : ElfImage) : Decidable (LoadableOK c img) := by
+  unfold LoadableOK; infer_instance
+
+/-- an address lies in no relocation slot. -/
+def notInSlots (n : Nat) (slots : List Reloc) (a : Nat) : Prop :=
+  ∀ r ∈ slots, a < r.1 ∨ r.1 + n ≤ a
+
+instance (n : Nat) (slots : List Reloc) (a : Nat) : Decidable (notInSlots n slots a) := by
+  unfold notInSlots; infer_instance
+
 /-! ## instruction fetch -/
 
 /-- `istr = mmap.read(vaddr, maxlen)`; `istr[0]` — what `read_instruction` hands to the
